@@ -8,6 +8,7 @@ import Switcher.Model.Sched
 import Switcher.Model.Api
 import Switcher.Model.Bridge
 import Switcher.Model.Life
+import Switcher.Model.LifeC
 open Spec Wire Model
 
 def showPyText : Py (List Char) → String
@@ -100,12 +101,13 @@ def showRecs (recs : List SchedRec) : String :=
     ((recs.mergeSort (fun a b => a.id ≤ b.id)).map (fun r =>
       s!"{r.id},{if r.recurring then 1 else 0},{showDays (r.days.mergeSort (· ≤ ·))},{String.ofList r.start},{String.ofList r.stop},{String.ofList r.duration},{encText r.display}"))
 
-def goBridge (ports : List Nat) (s : BridgeState) : List BridgeAct → List String
+/-- the code-level bridge (Model.LifeC: dictionary, bind loop, rollback); `Props.C17.code_refines` relates it to the abstract machine -/
+def goBridge (ports : List Nat) (s : BridgeC) : List BridgeAct → List String
   | [] => []
   | a :: rest =>
-    let (s', o) := bridgeStep s a
+    let (s', o) := bridgeStepC s a
     (o.text.replace " " "_" ++ ":" ++ (if s'.running then "1" else "0") ++ ":" ++
-      String.ofList (ports.map (fun p => if s'.listening.contains p then '1' else '0'))) :: goBridge ports s' rest
+      String.ofList (ports.map (fun p => if s'.openPorts.contains p then '1' else '0'))) :: goBridge ports s' rest
 
 def goClient (s : ClientState) : List ClientAct → List String
   | [] => []
@@ -219,14 +221,14 @@ def drive : List String → String
           | _ => none
       match acts.mapM parse with
       | some as =>
-        " ".intercalate (goBridge (List.range n) (bridgeInit (List.range n)) as)
+        " ".intercalate (goBridge (List.range n) (bridgeInitC (List.range n)) as)
       | none => "bad-arg"
     | none => "bad-arg"
   | "clife" :: acts =>
     let parse (a : String) : Option ClientAct :=
       if a == "cok" then some .connectOk else if a == "cref" then some .connectRefused else if a == "op" then some .opOk
       else if a == "opx" then some .opRaises else if a == "disc" then some .disconnect else if a == "with" then some (.withBody false)
-      else if a == "withx" then some (.withBody true) else none
+      else if a.startsWith "withx" then some (.withBody true) else none     -- withx, withx:TimeoutError, …: whatever the body raises
     match acts.mapM parse with
     | some as =>
       " ".intercalate (goClient clientInit as)
